@@ -314,6 +314,44 @@ func genC12(cfg Config, emit Emit) error {
 		}
 		emit("cardec", []string{hexTok(in)}, "arbitrary", len(in) > 0)
 	}
+	// sections whose CID announces a sha2-256 digest of another length than 32 (a truncation: valid when it is
+	// the prefix of the digest; longer than the function's output: never valid), identity digests that are /
+	// are not the data, functions nobody registered
+	for i := 0; i < 3; i++ {
+		roots, blocks := genArchive(cfg.Rng, 2)
+		a, err := encodeArchive(roots, blocks)
+		if err != nil {
+			return err
+		}
+		data := []byte{0x18, byte(0x30 + i)}
+		full := stdsha.Sum256(data)
+		for _, n := range []int{0, 1, 16, 20, 31, 32, 33, 40, 64, 127} {
+			for _, good := range []bool{true, false} {
+				dg := make([]byte, n)
+				copy(dg, full[:])
+				if !good && n > 0 {
+					dg[n-1] ^= 1
+				}
+				c := []byte{0x01, 0x55, 0x12}
+				c = binary.AppendUvarint(c, uint64(n))
+				c = append(c, dg...)
+				sec := binary.AppendUvarint(nil, uint64(len(c)+len(data)))
+				sec = append(append(sec, c...), data...)
+				in := append(append([]byte{}, a...), sec...)
+				if i == 1 { // followed by a further, good section
+					gc := append([]byte{0x01, 0x55, 0x12, 0x20}, full[:]...)
+					gs := binary.AppendUvarint(nil, uint64(len(gc)+len(data)))
+					in = append(in, append(append(gs, gc...), data...)...)
+				}
+				emit("cardec", []string{hexTok(in)}, fmt.Sprintf("digest-length/%d/%v", n, good), true)
+			}
+		}
+		for _, c := range [][]byte{append([]byte{0x01, 0x55, 0x00, 0x02}, data...), {0x01, 0x55, 0x00, 0x02, 0x18, 0x00}, {0x01, 0x55, 0x00, 0x00}, {0x01, 0x55, 0x99, 0x01, 0x02, 7, 7}} {
+			sec := binary.AppendUvarint(nil, uint64(len(c)+len(data)))
+			sec = append(append(sec, c...), data...)
+			emit("cardec", []string{hexTok(append(append([]byte{}, a...), sec...))}, "digest-length/identity-or-unknown", true)
+		}
+	}
 	// section (and header) lengths at and beyond every bound: the allocation limit, 2^31, 2^32, 2^62, 2^63, 2^64-1
 	lens := []uint64{32 << 20, 32<<20 + 1, 1 << 31, 1<<32 - 1, 1 << 32, 1 << 40, 1 << 62, 1<<62 + 1, 1<<63 - 1, 1 << 63, 1<<64 - 1}
 	for i, l := range lens {
